@@ -444,19 +444,19 @@ def width_source(a, defs):
 
 def derived_locals(aid, defs, fn_body):
     """the operand and the locals computed from it (`let w = require_bv(a)?`, `let t = a.get_type(ctx)`, tuple lets), two levels"""
-    out = {aid}
+    out = {aid, canon(aid)}
     for _ in range(3):
         for n in walk(fn_body):
-            if n.get("k") == "let" and "init" in n and any(x.get("k") == "local" and x["id"] in out for x in walk(n["init"])):
+            if n.get("k") == "let" and "init" in n and any(x.get("k") == "local" and (x["id"] in out or canon(x["id"]) in out) for x in walk(n["init"])):
                 ini = strip_try(n["init"])
                 if ini.get("k") == "mcall" and (callee(ini) or "").startswith(CTX + "::"):
                     continue          # a new expression built from it is a different value
                 if n["pat"].get("k") == "ptuple" and peel(n["init"]).get("k") == "tuple":
                     for sub, e in zip(n["pat"].get("pats", n["pat"].get("elems", [])), peel(n["init"])["elems"]):
-                        if any(x.get("k") == "local" and x["id"] in out for x in walk(e)):
-                            out |= {i for _, i in pat_bindings(sub)}
+                        if any(x.get("k") == "local" and (x["id"] in out or canon(x["id"]) in out) for x in walk(e)):
+                            out |= {i for _, i in pat_bindings(sub)} | {canon(i) for _, i in pat_bindings(sub)}
                     continue
-                out |= {i for _, i in pat_bindings(n["pat"])}
+                out |= {i for _, i in pat_bindings(n["pat"])} | {canon(i) for _, i in pat_bindings(n["pat"])}
     return out
 
 
@@ -537,6 +537,7 @@ def related_widths(ai, aj, call, ix, f, fns, defs):
                     subj = n["cond"] if n["k"] == "if" else n["scrut"]
             if subj is not None:
                 locs = {x["id"] for x in walk(subj) if x.get("k") == "local"}
+                locs |= {canon(i_) for i_ in locs}
                 if locs & A and locs & B:
                     return True
         return False
